@@ -118,6 +118,9 @@ type Case struct {
 	ValCap  uint64 `json:"val_cap,omitempty"`
 	Corrupt int    `json:"corrupt,omitempty"`
 	Ops     int    `json:"ops,omitempty"`
+	Skip    []int  `json:"skip,omitempty"` // remote: operations generated but not executed
+	// fresh: one query on a fresh reader
+	Query HB `json:"query,omitempty"`
 	// depth
 	N int `json:"n,omitempty"`
 }
@@ -1627,6 +1630,12 @@ func (s *mixSyncer) SyncIterate(_ context.Context, rq *syncer.IterateRequest) (*
 
 // remoteInfo: what decides the class of a session.
 type remoteInfo struct {
+	errOps     []int // operations that returned an error before the session failed
+	failIdx    int   // index of the operation that gave the wrong answer (-1: none)
+	failKind   int   // its kind (0-2 Get, 3 iterate)
+	failKey    []byte
+	failN      int
+	failPf     uint16
 	honestOnly bool // every response handed to the tree was the honest one
 	maxResp    int  // largest response, in internal nodes
 	sh         shape
@@ -1691,14 +1700,28 @@ func runRemote(c Case, sum *coqout.Summary) (viols []map[string]any, info remote
 	}()
 	// with an honest syncer and a cache that holds the whole tree nothing may fail
 	strict := c.Corrupt == 0 && info.ample()
+	skipped := map[int]bool{}
+	for _, i := range c.Skip {
+		skipped[i] = true
+	}
 	for i := 0; i < c.Ops && len(viols) == 0; i++ {
+		// every operation is drawn; a skipped one is not executed
+		opKind := r.Intn(5)
+		k := genQueries(r, w, 4)[r.Intn(4)]
+		n := r.Intn(6)
+		pf := uint16(r.Intn(4))
+		lim := uint16(r.Intn(8))
+		if skipped[i] {
+			continue
+		}
 		sum.Evaluations++
-		switch r.Intn(5) {
+		info.failIdx, info.failKind, info.failKey, info.failN, info.failPf = i, opKind, k, n, pf
+		switch opKind {
 		case 0, 1, 2: // Get
-			k := genQueries(r, w, 4)[r.Intn(4)]
 			v, err := rt.Get(ctx, nn(k))
 			switch {
 			case err != nil:
+				info.errOps = append(info.errOps, i)
 				sum.Count("remote-op", "get/error")
 				if strict {
 					bad(fmt.Sprintf("honest syncer: Get(%x) failed: %v", k, err))
@@ -1714,14 +1737,13 @@ func runRemote(c Case, sum *coqout.Summary) (viols []map[string]any, info remote
 				}
 			}
 		case 3: // iterate
-			k := genQueries(r, w, 4)[r.Intn(4)]
-			n := r.Intn(6)
-			it := rt.NewIterator(ctx, mkvs.IteratorPrefetch(uint16(r.Intn(4))))
+			it := rt.NewIterator(ctx, mkvs.IteratorPrefetch(pf))
 			// expected sequence
 			j := sort.Search(len(w.sorted), func(i int) bool { return bytes.Compare(w.sorted[i].K, k) >= 0 })
 			it.Seek(nn(k))
 			for s := 0; s <= n; s++ {
 				if it.Err() != nil {
+					info.errOps = append(info.errOps, i)
 					sum.Count("remote-op", "iterate/error")
 					if strict {
 						bad(fmt.Sprintf("honest syncer: iteration from %x failed: %v", k, it.Err()))
@@ -1744,9 +1766,9 @@ func runRemote(c Case, sum *coqout.Summary) (viols []map[string]any, info remote
 			}
 			it.Close()
 		case 4: // prefetch prefixes (errors are fine; later answers are checked)
-			k := genQueries(r, w, 4)[r.Intn(4)]
-			err := rt.PrefetchPrefixes(ctx, [][]byte{nn(k)}, uint16(r.Intn(8)))
+			err := rt.PrefetchPrefixes(ctx, [][]byte{nn(k)}, lim)
 			if err != nil {
+				info.errOps = append(info.errOps, i)
 				sum.Count("remote-op", "prefetch/error")
 				if strict {
 					bad(fmt.Sprintf("honest syncer: PrefetchPrefixes(%x) failed: %v", k, err))
@@ -1756,9 +1778,195 @@ func runRemote(c Case, sum *coqout.Summary) (viols []map[string]any, info remote
 			}
 		}
 	}
+	if len(viols) == 0 {
+		info.failIdx = -1
+	}
 	for k, v := range ms.stats {
 		for i := 0; i < v; i++ {
 			sum.Count("remote-responses", k)
+		}
+	}
+	return
+}
+
+// freshReplay runs the operation that failed in a session on a FRESH reader
+// with the same cache capacity and an honest peer: "exact", "error" or "lie".
+func freshReplay(c Case, info remoteInfo) string {
+	w := buildTree(c.KVs)
+	defer w.tree.Close()
+	rt := mkvs.NewWithRoot(w.tree, nil, w.root, mkvs.Capacity(c.NodeCap, c.ValCap))
+	defer rt.Close()
+	k := info.failKey
+	if info.failKind <= 2 {
+		v, err := rt.Get(ctx, nn(k))
+		if err != nil {
+			return "error"
+		}
+		a := "A"
+		if v != nil {
+			a = "F" + string(v)
+		}
+		if a != truth(w, k) {
+			return "lie"
+		}
+		return "exact"
+	}
+	it := rt.NewIterator(ctx, mkvs.IteratorPrefetch(info.failPf))
+	defer it.Close()
+	j := sort.Search(len(w.sorted), func(i int) bool { return bytes.Compare(w.sorted[i].K, k) >= 0 })
+	it.Seek(nn(k))
+	for s := 0; s <= info.failN; s++ {
+		if it.Err() != nil {
+			return "error"
+		}
+		if !it.Valid() {
+			if j < len(w.sorted) {
+				return "lie"
+			}
+			return "exact"
+		}
+		if j >= len(w.sorted) || !bytes.Equal(it.Key(), w.sorted[j].K) || !bytes.Equal(it.Value(), w.sorted[j].V) {
+			return "lie"
+		}
+		j++
+		it.Next()
+	}
+	return "exact"
+}
+
+// ---------- fresh reader per query ----------
+
+// genBigKVs: 20-60 keys over the alphabet, length 1-5, prefix/extension heavy.
+func genBigKVs(r *prng.R) []KV {
+	n := r.Range(20, 60)
+	var kvs []KV
+	var have [][]byte
+	seen := map[string]bool{}
+	for len(kvs) < n {
+		var k []byte
+		switch {
+		case len(have) > 0 && r.Chance(35):
+			b := have[r.Intn(len(have))]
+			if len(b) >= 5 {
+				continue
+			}
+			k = append(nn(b), alphabet[r.Intn(4)])
+		default:
+			k = make([]byte, r.Range(1, 5))
+			for i := range k {
+				k[i] = alphabet[r.Intn(4)]
+			}
+		}
+		if seen[string(k)] {
+			continue
+		}
+		seen[string(k)] = true
+		have = append(have, k)
+		kvs = append(kvs, KV{K: k, V: r.Bytes(r.Range(1, 6))})
+	}
+	return kvs
+}
+
+// freshQueries: every present key, for every present key the absent key right
+// after it, some prefixes and the ends of the key space.
+func freshQueries(w *world) [][]byte {
+	var out [][]byte
+	seen := map[string]bool{}
+	add := func(k []byte) {
+		if !seen[string(k)] {
+			seen[string(k)] = true
+			out = append(out, nn(k))
+		}
+	}
+	for _, kv := range w.sorted {
+		add(kv.K)
+		add(append(nn(kv.K), 0xff))
+		add(append(nn(kv.K), 0x00))
+		if len(kv.K) > 1 {
+			add(kv.K[:len(kv.K)-1])
+		}
+	}
+	add([]byte{})
+	add([]byte{0xff, 0xff, 0xff, 0xff, 0xff, 0xff})
+	return out
+}
+
+// freshOne: ONE query (op "get" or "seek": Seek + Next to the end) on a fresh
+// reader that holds only the trusted root.  There is no earlier operation, so
+// the only admissible outcomes are the full replica's answer or an error.
+func freshOne(w *world, c Case, q []byte, op string, idx int) (outcome string, what string) {
+	defer func() {
+		if r := recover(); r != nil {
+			outcome, what = "lie", fmt.Sprintf("panic in a fresh remote-backed reader: %v", r)
+		}
+	}()
+	var rs syncer.ReadSyncer = w.tree
+	if c.Corrupt > 0 {
+		rs = &mixSyncer{w: w, r: prng.New(c.Seed + uint64(idx)*7919 + uint64(len(op))), corrupt: c.Corrupt, stats: map[string]int{}}
+	}
+	rt := mkvs.NewWithRoot(rs, nil, w.root, mkvs.Capacity(c.NodeCap, c.ValCap))
+	defer rt.Close()
+	if op == "get" {
+		v, err := rt.Get(ctx, nn(q))
+		if err != nil {
+			return "error", ""
+		}
+		a := "A"
+		if v != nil {
+			a = "F" + string(v)
+		}
+		if a != truth(w, q) {
+			return "lie", fmt.Sprintf("fresh reader (node cache %d): Get(%x) = %q, the full replica says %q", c.NodeCap, q, a, truth(w, q))
+		}
+		return "exact", ""
+	}
+	it := rt.NewIterator(ctx, mkvs.IteratorPrefetch(c.Prefetch))
+	defer it.Close()
+	j := sort.Search(len(w.sorted), func(i int) bool { return bytes.Compare(w.sorted[i].K, q) >= 0 })
+	n := 0
+	for it.Seek(nn(q)); it.Valid(); it.Next() {
+		if j+n >= len(w.sorted) || !bytes.Equal(it.Key(), w.sorted[j+n].K) || !bytes.Equal(it.Value(), w.sorted[j+n].V) {
+			return "lie", fmt.Sprintf("fresh reader (node cache %d, prefetch %d): Seek(%x) yields (%x,%x) as item %d, the full replica differs", c.NodeCap, c.Prefetch, q, []byte(it.Key()), it.Value(), n)
+		}
+		n++
+	}
+	if it.Err() != nil {
+		return "error", ""
+	}
+	if j+n != len(w.sorted) {
+		return "lie", fmt.Sprintf("fresh reader (node cache %d, prefetch %d): Seek(%x) ends after %d items without an error, the full replica yields %d (next would be %x)", c.NodeCap, c.Prefetch, q, n, len(w.sorted)-j, []byte(w.sorted[j+n].K))
+	}
+	return "exact", ""
+}
+
+// runFresh: all queries (or the one of a replay), each on its own reader.
+func runFresh(c Case, sum *coqout.Summary) (viols []map[string]any) {
+	w := buildTree(c.KVs)
+	defer w.tree.Close()
+	qs := freshQueries(w)
+	ops := []string{"get", "seek"}
+	if c.Query != nil || c.Op != "" {
+		qs, ops = [][]byte{c.Query}, []string{c.Op}
+	}
+	peer := "honest"
+	if c.Corrupt > 0 {
+		peer = "corrupt"
+	}
+	for i, q := range qs {
+		for _, op := range ops {
+			sum.Evaluations++
+			o, what := freshOne(w, c, q, op, i)
+			sum.Count("fresh-reader", fmt.Sprintf("%s peer/%s/%s", peer, op, o))
+			sum.Count("fresh-reader-cap", fmt.Sprintf("node cache %d/%s", c.NodeCap, o))
+			if o == "lie" && len(viols) < 3 {
+				x := c
+				x.Query, x.Op = nn(q), op
+				if c.Corrupt > 0 {
+					// keep the per-query syncer stream (a replay runs the query as index 0)
+					x.Seed = c.Seed + uint64(i)*7919
+				}
+				viols = append(viols, map[string]any{"what": what + " [no earlier operation on this reader: never the bounded-cache finding]", "case": x})
+			}
 		}
 	}
 	return
@@ -1844,13 +2052,14 @@ func main() {
 	out := flag.String("out", "", "output directory")
 	replay := flag.String("replay", "", "replay a case description (JSON file)")
 	deep := flag.Bool("deep", true, "probe the proof depth limit")
+	nfresh := flag.Int("fresh", 3, "trees for the fresh-reader-per-query stream")
 	flag.Parse()
 	if *out == "" {
 		fmt.Fprintln(os.Stderr, "need -out")
 		os.Exit(2)
 	}
 	wb := coqout.NewWriter(*out, coqHeader, "run_c04", "c04_eqb", 12)
-	sum := coqout.NewSummary("seeded trees of 0-12 keys over the byte alphabet {00,01,80,ff} (length 0-4, prefix/extension heavy, empty key), values 0-8 bytes; per tree 4 key-lookup proofs (versions 0/1 x siblings off/on; present / extension / prefix / random query), one SyncIterate (prefetch 0-10) and one SyncGetPrefixes (limit 0-10) proof, each with its mutants plus 8 forged proofs against the non-empty trusted root (single nil entry, single empty-hash entry, single root-hash entry, an unrelated one-key tree's proof re-labelled; versions 0/1) and up to 9 proofs with the root / one inner internal-node entry in the FULL (non-compact) encoding carrying the real child hashes, followed by honest children, a fabricated child (other value, other key, dropped subtree, extra subtree) or no children; remote sessions: honest peer / corrupt peer x cache capacities, classified by (responses honest only?, cache vs tree size, cache vs largest response + path); evaluation = one candidate proof through the real VerifyProof+VerifyProofToWriteLog (plus remote-backed Gets), one SyncGet compared with the model builder, or one operation on a remote-backed tree; non-trivial = candidate with >= 2 entries; distinct = distinct (root, version, untrusted root, entry list)")
+	sum := coqout.NewSummary("seeded trees of 0-12 keys over the byte alphabet {00,01,80,ff} (length 0-4, prefix/extension heavy, empty key), values 0-8 bytes; per tree 4 key-lookup proofs (versions 0/1 x siblings off/on; present / extension / prefix / random query), one SyncIterate (prefetch 0-10) and one SyncGetPrefixes (limit 0-10) proof, each with its mutants plus 8 forged proofs against the non-empty trusted root (single nil entry, single empty-hash entry, single root-hash entry, an unrelated one-key tree's proof re-labelled; versions 0/1) and up to 9 proofs with the root / one inner internal-node entry in the FULL (non-compact) encoding carrying the real child hashes, followed by honest children, a fabricated child (other value, other key, dropped subtree, extra subtree) or no children; remote sessions: honest peer / corrupt peer x cache capacities, classified by (responses honest only?, cache vs tree size, cache vs largest response + path; a wrong answer counts as the known bounded-cache finding only if an earlier operation ran on that reader and the same query on a fresh reader is exact or an error); fresh-reader-per-query stream: 3 trees of 20-60 keys, node capacities 2..6 (honest peer) and one 30%-corrupt variant, every present key / the absent keys right after it / its prefix, Get and Seek+Next to the end, each on its own reader: exact answer or error only; evaluation = one candidate proof through the real VerifyProof+VerifyProofToWriteLog (plus remote-backed Gets), one SyncGet compared with the model builder, or one operation on a remote-backed tree; non-trivial = candidate with >= 2 entries; distinct = distinct (root, version, untrusted root, entry list)")
 	seen := map[string]bool{}
 
 	runCase := func(c Case) {
@@ -1894,7 +2103,29 @@ func main() {
 						sum.Count("remote-session-failed-after-shrink", "corrupt-peer/cache<response+path, clean with unbounded cache")
 					}
 				}
-				if info.belowResponsePlusPath() && (info.honestOnly || needsSmallCache) {
+				// The mechanism of the known finding on the unchanged tree: an eviction
+				// aborted half-way during an EARLIER operation of the same reader leaves
+				// cleared links on a cached node (that earlier operation may or may not have
+				// returned 'cache too small': the abort is also swallowed when a descendant of
+				// the fetched pointer could not be committed).  So a session failure counts
+				// as that finding only if (a) the reader had executed an earlier operation and
+				// (b) the very same query on a FRESH reader with the same cache gives the
+				// exact answer or an error.  A fresh reader that lies is never the finding.
+				freshOutcome := freshReplay(c, info)
+				afterFailure := info.failIdx > 0 && freshOutcome != "lie"
+				earlier := "no earlier operation failed"
+				if len(info.errOps) > 0 {
+					earlier = fmt.Sprintf("earlier operations %v failed", info.errOps)
+				}
+				what += fmt.Sprintf(" [operation %d of the session; %s; the same query on a fresh reader: %s]", info.failIdx, earlier, freshOutcome)
+				if afterFailure {
+					if len(info.errOps) > 0 {
+						sum.Count("remote-session-failed-after-shrink", "state left by earlier operations, one of which failed")
+					} else {
+						sum.Count("remote-session-failed-after-shrink", "state left by earlier operations, none of which failed")
+					}
+				}
+				if afterFailure && info.belowResponsePlusPath() && (info.honestOnly || needsSmallCache) {
 					// the documented shape of the known finding: honest responses only and
 					// fewer node slots than the largest response plus the path
 					sum.Findings = append(sum.Findings, coqout.Finding{Key: cacheFindingKey, What: what, Replay: map[string]any{"case": c}})
@@ -1902,6 +2133,10 @@ func main() {
 					v["what"] = what
 					sum.Violations = append(sum.Violations, v)
 				}
+			}
+		case "fresh":
+			for _, v := range runFresh(c, sum) {
+				sum.Violations = append(sum.Violations, v)
 			}
 		case "depth":
 			f, viols := runDepth(c, sum)
@@ -2044,6 +2279,16 @@ func main() {
 		cp = caps[cr.Intn(len(caps))]
 		runCase(Case{Kind: "remote", KVs: kvs, Seed: cr.U64(), NodeCap: cp[0], ValCap: cp[1], Corrupt: 40, Ops: 25})
 		sum.Sample(map[string]any{"kvs": kvs, "queries": queries}, 3)
+	}
+	// (e) fresh reader per query, tiny node caches, larger trees
+	for i := 0; i < *nfresh; i++ {
+		cr := r.Fork()
+		kvs := genBigKVs(cr)
+		sum.Count("fresh-tree-keys", bucket(len(kvs)))
+		for cap := uint64(2); cap <= 6; cap++ {
+			runCase(Case{Kind: "fresh", KVs: kvs, NodeCap: cap, Prefetch: uint16([]int{0, 1, 3}[cr.Intn(3)])})
+		}
+		runCase(Case{Kind: "fresh", KVs: kvs, NodeCap: uint64(cr.Range(2, 6)), Prefetch: uint16(cr.Intn(4)), Corrupt: 30, Seed: cr.U64()})
 	}
 	if *deep {
 		runCase(Case{Kind: "depth", N: 129})
